@@ -682,7 +682,72 @@ func covering(r *world.Rng, maxN int) (int, []ref.Con, *ref.Cost) {
 	return n, cs, cost
 }
 
+// plantedLowCost: random clauses around a planted assignment that makes every cost literal (or all
+// but a few) false: the optimum is 0 or small, and a search that lands elsewhere first must walk the
+// last steps down (cost 2, 1, 0) one by one.
+func plantedLowCost(r *world.Rng, maxN int) (int, []ref.Con, *ref.Cost) {
+	n := r.Range(7, maxN)
+	planted := make([]bool, n+1)
+	for v := 1; v <= n; v++ {
+		planted[v] = r.Bool(0.5)
+	}
+	k := r.Range(4, min(n, 7))
+	cost := &ref.Cost{Lits: distinctLits(r, n, k)}
+	for i, l := range cost.Lits { // false under the planted assignment
+		v := l
+		if v < 0 {
+			v = -v
+		}
+		if planted[v] {
+			cost.Lits[i] = -v
+		} else {
+			cost.Lits[i] = v
+		}
+	}
+	if r.Bool(0.5) {
+		cost.Coefs = make([]int, k)
+		for i := range cost.Coefs {
+			cost.Coefs[i] = r.Pick(1, 1, 1, 2, 3)
+		}
+	}
+	if r.Bool(0.3) { // one cost literal true in the planted assignment: the optimum may be its weight
+		cost.Lits[r.Intn(k)] *= -1
+	}
+	var cs []ref.Con
+	m := int(float64(n) * (3.0 + 1.5*r.Float()))
+	for len(cs) < m {
+		l := distinctLits(r, n, r.Pick(2, 3, 3, 3))
+		ok := false
+		for _, x := range l {
+			if (x > 0) == planted[abs(x)] {
+				ok = true
+			}
+		}
+		if ok {
+			cs = append(cs, ref.Con{Lits: l, K: 1})
+		}
+	}
+	return n, cs, cost
+}
+
 func genC03(r *world.Rng, w *world.World, big bool) {
+	if r.Bool(0.06) {
+		n, cs, cost := plantedLowCost(r, 14)
+		cs = append(cs, topVarClause(r, n))
+		route := r.PickS("pb", "cnf", "opb")
+		for i := range cs {
+			cs[i].Op = ">="
+		}
+		t := world.TaskSpec{Kind: "opt", N: n, Cons: cs, Cost: cost, Route: route, Entry: "all", Cap: capacity(r), Delays: delays(r)}
+		if route == "opb" {
+			t.Text = opbText(r, n, cs, cost)
+			t.Chunks = chunks(r)
+		}
+		w.Tasks = []world.TaskSpec{t}
+		knobs(r, w)
+		schedMulti(r, w)
+		return
+	}
 	if r.Bool(0.25) {
 		n, cs, cost := covering(r, 10)
 		route := r.PickS("pb", "card", "opb")
@@ -1325,4 +1390,11 @@ func oneHotGroups(r *world.Rng, maxN int) (int, [][]int) {
 		out[i] = cl[j]
 	}
 	return n, out
+}
+
+func abs(x int) int {
+	if x < 0 {
+		return -x
+	}
+	return x
 }
